@@ -255,7 +255,7 @@ fn lookup_case(ctx: &mut Ctx, z: u8, x: u64, y: u64) {
 
 pub fn run(ctx: &mut Ctx) {
     // ---- 1. exhaustive sweep over all ids of zooms 0..=L
-    let max_z: u8 = ctx.n(10, 15) as u8;
+    let max_z: u8 = ctx.n(13, 15) as u8;
     let total = R::zoom_base(max_z + 1);
     let chunk: u64 = 1 << 14;
     let nchunks = total.div_ceil(chunk);
